@@ -24,6 +24,10 @@ func runC18(c *Ctx) {
 
 	c.Rule("R18g", "life-span lattice: in sql/sqlcheck every write of the constant SpanDropped to a ResourceSpan accumulates (`|=`, or `x = x | SpanDropped`), so an object added and dropped by the same file reaches SpanTemporary (Added|Dropped) — the value the destructive analyzer's exemption compares with — and a write of SpanAdded never clears it after a drop in the same switch arm", 3)
 	checkSpanAccumulates(c, "R18g")
+	c.Rule("R18i", ruleTextChangePerStmt, 1)
+	checkChangePerStmt(c, "R18i")
+	c.Rule("R18j", ruleTextTrimCutset, 1)
+	checkTrimCutset(c, "R18j")
 	c.Rule("R18h", "state threading: every DevLoader method that executes the statements of a file and returns the realm after it returns, on each success return, a realm derived from an inspection (the result of d.inspect, a variable with a definition copied from one, or the result of a sibling method under the same rule) — never only the `start` realm it was given", 3)
 	checkRealmThreading(c, "R18h")
 	c.Rule("R18f", ruleTextWindowGuard, 1)
